@@ -31,8 +31,9 @@ MODEL_TARGETS = ["model/Dataset.vo", "model/Harness.vo"]
 TRUSTED_BASE = [
     "torch.randperm(n, generator=g) returns a permutation of 0..n-1 and is a function of the generator state "
     "(Section hypothesis randperm_perm; every observed call is validated by the correspondence, in Python and in Coq)",
-    "torch.save/torch.load round-trip a dict of tensors; torch.load(path) returns the same data at construction and at "
-    "unpickling (Section variable `load`; the harness never rewrites the file)",
+    "torch.save/torch.load round-trip a dict of tensors; torch.load(path) returns the file's current contents, the same at "
+    "construction and at unpickling unless the file is rewritten (Section variable `load`; the harness rewrites a file only in the "
+    "explicit `rewrite` step of the shared-file scripts, and datasets created before it are not unpickled after it)",
     "tensor indexing v[perm], v[i:i+bs], v[:k], torch.cat, slice assignment modelled as list operations (validated by the correspondence)",
     "pickle of an attrs class calls __getstate__/__setstate__ (validated: pickle.dumps/loads histories)",
 ]
@@ -487,9 +488,196 @@ def oracle_rb(spec, o=None):
 
 
 # --------------------------------------------------------------------------
+# several datasets on one file (sharing must not matter: `load` is a function of the path's contents)
+# --------------------------------------------------------------------------
+def gen_multi_spec(rng, quick):
+    """2-3 Dataset objects with different (batches, batch_size, seed) on ONE saved file, created in a random
+    order, their epochs interleaved, one of them pickled/restored in between; optionally the file is then
+    rewritten with different contents and further datasets are created on the same path."""
+    n = rng.choice([2, 3, 4, 5, 6, 8, 9, 12, 16, rng.randrange(2, 41)])
+    names = rng.sample(NAMES, rng.choice([1, 1, 2]))
+
+    def contents(rows):
+        return [{"name": "rowid", "dtype": "int64", "shape": [rows], "values": list(range(rows))}] + \
+               [gen_field(rng, nm, rows) for nm in names]
+
+    nd = rng.choice([2, 2, 3])
+    configs = []
+    for i in range(nd):
+        bs = pick_bs(rng, n)
+        configs.append({"batch_size": bs, "batches": None, "seed": rng.choice([0, 7, 0x12345678, rng.randrange(2 ** 31)])})
+    # at least one untruncated and one strictly truncating sibling
+    t = rng.randrange(nd)
+    u = (t + 1 + rng.randrange(nd - 1)) % nd
+    bs = rng.randrange(1, max(2, n // 2 + 1))
+    configs[t]["batch_size"] = bs
+    configs[t]["batches"] = rng.randrange(0, max(1, (n - 1) // bs) + 1)
+    configs[u]["batches"] = None
+    for i in range(nd):
+        if i not in (t, u) and rng.random() < 0.5:
+            configs[i]["batches"] = rng.randrange(0, n // configs[i]["batch_size"] + 2)
+    if rng.random() < 0.3:
+        configs[u]["seed"] = configs[t]["seed"]
+
+    def rand_op(i):
+        r = rng.random()
+        if r < 0.5:
+            return ["iter", i, 0]
+        if r < 0.62:
+            return ["take", i, rng.randrange(1, 3)]
+        if r < 0.77:
+            return ["ff", i, rng.randrange(0, 3)]
+        return ["pickle", i, 0]
+
+    order = list(range(nd))
+    rng.shuffle(order)
+    script, alive = [], []
+    for i in order:
+        script.append(["new", i, 0])
+        alive.append(i)
+        for _ in range(rng.choice([0, 0, 1, 2])):
+            script.append(rand_op(rng.choice(alive)))
+    for _ in range(rng.randrange(3, 8)):
+        script.append(rand_op(rng.choice(alive)))
+    if not any(o[0] == "pickle" for o in script):
+        script.append(["pickle", rng.choice(alive), 0])
+    for i in alive:
+        script.append(["iter", i, 0])
+    spec = {"kind": "multi", "fields": contents(n), "configs": configs, "script": script, "fields2": None}
+    if rng.random() < 0.5:
+        n2 = rng.choice([n, n + 1, max(1, n - 1), rng.randrange(1, 20)])
+        spec["fields2"] = contents(n2)
+        script.append(["rewrite", 0, 0])
+        fresh = []
+        for _ in range(rng.choice([1, 1, 2])):
+            j = len(configs)
+            bs2 = pick_bs(rng, n2)
+            configs.append({"batch_size": bs2, "batches": rng.choice([None, None, rng.randrange(0, n2 // bs2 + 2)]),
+                            "seed": rng.choice([0, 7, rng.randrange(2 ** 31)])})
+            script.append(["new", j, 0])
+            fresh.append(j)
+            script.append(["iter", j, 0])
+        for _ in range(rng.randrange(0, 4)):
+            # datasets created before the rewrite keep their in-memory data; they are not pickled afterwards
+            i = rng.choice(alive + fresh)
+            o = rand_op(i)
+            if o[0] == "pickle" and i in alive:
+                o = ["iter", i, 0]
+            script.append(o)
+    return spec
+
+
+def run_multi_impl(spec, tmpdir):
+    """run the script on real Dataset objects sharing one path; returns per-dataset observations"""
+    torch = _torch()
+    from xformer import data as xdata
+    path = str(Path(tmpdir) / f"multi_{spec_hash(spec)}.pt")
+    stored = {f["name"]: mk_tensor(f) for f in spec["fields"]}
+    torch.save(stored, path)
+    version = 0
+    ds, per = {}, {}
+    with Recorder() as rec:
+        for kind, i, arg in spec["script"]:
+            if kind == "rewrite":
+                stored = {f["name"]: mk_tensor(f) for f in spec["fields2"]}
+                torch.save(stored, path)
+                version = 1
+                continue
+            if kind == "new":
+                c = spec["configs"][i]
+                seed_state = rec.seed_state(c["seed"])
+                ds[i] = xdata.Dataset(path, batch_size=c["batch_size"], batches=c["batches"], seed=c["seed"])
+                per[i] = {"version": version, "seed_state": seed_state, "ops": [], "obs": [],
+                          "dtypes": [(dt_code(v), dt_code(ds[i].data[k])) for k, v in stored.items()],
+                          "stored": [(k, rows_of(v)) for k, v in stored.items()],
+                          "stored_t": {k: (v.long() if v.dtype == torch.uint8 else v) for k, v in stored.items()}}
+                continue
+            out = []
+            if kind == "iter":
+                out = [dict_rows(b.data) for b in ds[i]]
+            elif kind == "take":
+                it = iter(ds[i])
+                for _ in range(arg):
+                    try:
+                        out.append(dict_rows(next(it).data))
+                    except StopIteration:
+                        break
+                it.close()
+            elif kind == "ff":
+                ds[i].fastforward_epochs(arg)
+            elif kind == "pickle":
+                ds[i] = pickle.loads(pickle.dumps(ds[i]))
+            per[i]["ops"].append([kind, arg])
+            per[i]["obs"].append(out)
+    return {"calls": rec.calls, "per": per}
+
+
+def oracle_multi(spec, o):
+    """row-id oracle on the implementation alone: every completely consumed epoch of every dataset yields each row
+    of ITS OWN (truncated) view of the file exactly once, fields together, sizes as configured"""
+    for i, d in sorted(o["per"].items()):
+        c = spec["configs"][i]
+        n0 = len(d["stored"][0][1])
+        n = n0 if c["batches"] is None else min(n0, c["batches"] * c["batch_size"])
+        bs = c["batch_size"]
+        for (kind, _), e in zip(d["ops"], d["obs"]):
+            if kind != "iter":
+                continue
+            cols = {}
+            for b in e:
+                for k, rows in b:
+                    cols.setdefault(k, []).extend(rows)
+            ids = [r[0] for r in cols.get("rowid", [])]
+            if sorted(ids) != list(range(n)):
+                return ("each stored row exactly once per epoch (several datasets on one file)",
+                        {"dataset": i, "config": c, "file_version": d["version"], "row_ids_yielded": ids[:60], "expected_rows": n})
+            sizes = [len(b[0][1]) for b in e]
+            if sizes != [bs] * (n // bs) + ([n % bs] if n % bs else []):
+                return ("batches of the configured size, only the last one shorter", {"dataset": i, "sizes": sizes[:40]})
+            for k, rows in d["stored"]:
+                if cols.get(k, []) != [rows[j] for j in ids]:
+                    return ("all fields of a row kept together (several datasets on one file)", {"dataset": i, "field": k})
+    return None
+
+
+def multi_cases(spec, o):
+    """one Coq case (the file-dataset case type) per dataset: ITS config, ITS history, the UNTRUNCATED contents
+    the file had when it was constructed; the randperm table is shared (keyed by generator state)"""
+    out = []
+    h = spec_hash(spec)
+    for i, d in sorted(o["per"].items()):
+        c = spec["configs"][i]
+        sub = {"batch_size": c["batch_size"], "batches": c["batches"], "seed": c["seed"], "ops": d["ops"]}
+        oo = {"calls": o["calls"], "seed_state": d["seed_state"], "stored": d["stored"], "obs": d["obs"], "dtypes": d["dtypes"]}
+        meta = {"kind": "multi", "hash": f"{h}-{i}", "input": spec, "dataset": i, "config": c, "file_version": d["version"],
+                "history": d["ops"], "impl_batches": [e[:4] for e in d["obs"]][:8]}
+        out.append((file_case_term(sub, oo), meta))
+    return out
+
+
+def _pinned_multi():
+    f = [{"name": "rowid", "dtype": "int64", "shape": [6], "values": list(range(6))},
+         {"name": "inputs", "dtype": "uint8", "shape": [6, 2], "values": list(range(100, 112))}]
+    f2 = [{"name": "rowid", "dtype": "int64", "shape": [4], "values": list(range(4))},
+          {"name": "inputs", "dtype": "uint8", "shape": [4, 2], "values": list(range(200, 208))}]
+    trunc = {"batch_size": 2, "batches": 1, "seed": 7}
+    full = {"batch_size": 4, "batches": None, "seed": 7}
+    out = []
+    for order in ((0, 1), (1, 0)):
+        out.append({"kind": "multi", "fields": f, "fields2": None, "configs": [trunc, full],
+                    "script": [["new", order[0], 0], ["new", order[1], 0], ["iter", 0, 0], ["iter", 1, 0], ["pickle", 1, 0],
+                               ["iter", 1, 0], ["iter", 0, 0]]})
+    out.append({"kind": "multi", "fields": f, "fields2": f2, "configs": [full, {"batch_size": 3, "batches": None, "seed": 1}],
+                "script": [["new", 0, 0], ["iter", 0, 0], ["rewrite", 0, 0], ["new", 1, 0], ["iter", 1, 0], ["iter", 0, 0]]})
+    return out
+
+
+# --------------------------------------------------------------------------
 # driver
 # --------------------------------------------------------------------------
 def _size_of(spec):
+    if spec["kind"] == "multi":
+        return sum(len(f["values"]) for f in spec["fields"] + (spec["fields2"] or [])) * (1 + len(spec["script"]))
     if spec["kind"] == "file":
         return sum(len(f["values"]) for f in spec["fields"]) * (1 + len(spec["ops"]))
     return sum(len(f["values"]) for b in spec["buffers"] for f in b)
@@ -751,6 +939,76 @@ def _correspondence(run, rng, tmpdir):
     for spec, err in rcrash[:2]:
         run.violation(f"replay-crash-{spec_hash(spec)}", {"clause": "no exception", "input": spec, "exception": err})
 
+    # ---------------- several datasets on one file
+    n_multi = 110 if quick else 1200
+    mspecs = [s for s in _corpus_specs() if s.get("kind") == "multi"] + _pinned_multi()
+    mspecs += [gen_multi_spec(rng, quick) for _ in range(n_multi)]
+    cm = core.Cases(ID, "multi", HEADER, FILE_CTYPE, FILE_CHECK, show=FILE_SHOW, shard=30)
+    mhits, mcrash, mass, msamples = [], [], [], []
+    mdist = {"datasets": {}, "with_rewrite": 0, "pickles": 0, "epochs_consumed": 0, "truncated_created_first": 0,
+             "untruncated_created_first": 0}
+    mseen = set()
+    for spec in mspecs:
+        try:
+            o = run_multi_impl(spec, tmpdir)
+        except Exception as e:  # noqa
+            mcrash.append((spec, repr(e)))
+            continue
+        for term, meta in multi_cases(spec, o):
+            cm.add(term, meta)
+        mseen.add(spec_hash(spec))
+        nd = str(len(o["per"]))
+        mdist["datasets"][nd] = mdist["datasets"].get(nd, 0) + 1
+        mdist["with_rewrite"] += spec["fields2"] is not None
+        mdist["pickles"] += sum(1 for st in spec["script"] if st[0] == "pickle")
+        mdist["epochs_consumed"] += sum(1 for d in o["per"].values() for e in d["obs"] if e)
+        first = next(st[1] for st in spec["script"] if st[0] == "new")
+        mdist["truncated_created_first" if spec["configs"][first]["batches"] is not None else "untruncated_created_first"] += 1
+        _, incons = oracle_table(o["calls"])
+        for c in o["calls"]:
+            if not is_perm(c[2], c[1]):
+                mass.append({"input": spec, "call": [c[0], c[1], c[2][:50]], "why": "not a permutation"})
+        for k in incons:
+            mass.append({"input": spec, "key": list(k), "why": "two different answers for one generator state"})
+        hit = oracle_multi(spec, o)
+        if hit:
+            mhits.append((spec, hit))
+        if len(msamples) < 1 and len(spec["fields"][0]["values"]) <= 4:
+            msamples.append({"input": spec, "impl": {str(i): d["obs"] for i, d in o["per"].items()}})
+    _size_shards(cm)
+    mfail, mshard_fail, mn = cm.run()
+    run.oblige(f"correspondence:several-datasets-on-one-file ({mn} shards, {len(cm)} dataset histories in {len(mseen)} scripts)",
+               not mshard_fail, str(mshard_fail)[:1500])
+    run.oblige("assumed: randperm answers are permutations and functions of the generator state (shared-file scripts)", not mass,
+               json.dumps(mass[:2])[:1000])
+    run.oblige("impl-oracle:several-datasets-on-one-file (row-id: each dataset yields its own view exactly once)", not mhits,
+               "; ".join(h[1][0] for h in mhits[:5]))
+    run.oblige("correspondence:several-datasets-on-one-file no exception escapes", not mcrash, "; ".join(c[1] for c in mcrash[:3]))
+    run.count(len(cm), len(mseen),
+              "one evaluation = the complete history of one of 2-5 Dataset objects that share ONE path (different batches / batch_size / seed, "
+              "both creation orders, epochs interleaved, pickle round-trips in between, optionally the file rewritten and new datasets created "
+              "on it): compared inside Coq with the model's prediction for that dataset's own config on the untruncated contents the file had "
+              "at its construction; non-trivial = distinct scripts (each has a truncating and an untruncated sibling)",
+              msamples, mdist, label="several-datasets-on-one-file")
+    reported = 0
+    mh = {spec_hash(sp): h for sp, h in mhits}
+    for meta in sorted(mfail, key=lambda m: _size_of(m["input"])):
+        if reported >= MAX_REPORT:
+            break
+        hit = mh.get(meta["hash"].rsplit("-", 1)[0])
+        _report(run, cm, meta, hit[0] if hit else "a dataset's batches differ from the model's prediction for its own config on the "
+                "file's contents (several datasets on one file)", hit[1] if hit else None)
+        reported += 1
+    mfh = {m["hash"].rsplit("-", 1)[0] for m in mfail}
+    for spec, hit in sorted(mhits, key=lambda sh: _size_of(sh[0])):
+        if reported >= MAX_REPORT:
+            break
+        if spec_hash(spec) not in mfh:
+            run.violation(f"multi-{spec_hash(spec)}", {"clause": hit[0], "model_disagrees": False, "input": spec, "oracle_detail": hit[1]})
+            reported += 1
+    for spec, err in mcrash[:2]:
+        run.violation(f"multi-crash-{spec_hash(spec)}", {"clause": "no exception", "input": spec, "exception": err})
+
 
 def search(run, broken):
     """a proof or shard broke but no case disagreed: test the property's own statement on the implementation"""
@@ -765,6 +1023,14 @@ def search(run, broken):
                 hit = ("no error escapes", {"exception": repr(e)})
             if hit:
                 run.violation(f"file-{spec_hash(spec)}", {"clause": hit[0], "oracle_detail": hit[1], "input": spec})
+                return True
+        for spec in _pinned_multi() + [gen_multi_spec(rng, True) for _ in range(150)]:
+            try:
+                hit = oracle_multi(spec, run_multi_impl(spec, tmpdir))
+            except Exception as e:  # noqa
+                hit = ("no error escapes", {"exception": repr(e)})
+            if hit:
+                run.violation(f"multi-{spec_hash(spec)}", {"clause": hit[0], "oracle_detail": hit[1], "input": spec})
                 return True
         for _ in range(300):
             spec = gen_rb_spec(rng, True)
@@ -785,6 +1051,20 @@ def replay(run, rp):
     spec = rp["input"]
     tmpdir = tempfile.mkdtemp(prefix="verif_c20_")
     try:
+        if spec["kind"] == "multi":
+            cs = core.Cases(ID, "replay_multi", HEADER, FILE_CTYPE, FILE_CHECK, show=FILE_SHOW, shard=1)
+            try:
+                o = run_multi_impl(spec, tmpdir)
+            except Exception as e:  # noqa
+                return {"violates": True, "exception": repr(e)}
+            for term, meta in multi_cases(spec, o):
+                cs.add(term, meta)
+            hit = oracle_multi(spec, o)
+            failing, shard_fail, _ = cs.run()
+            return {"violates": bool(failing or shard_fail or hit), "model_disagrees": bool(failing), "shard_fail": shard_fail,
+                    "oracle": hit, "datasets_disagreeing": [m["dataset"] for m in failing],
+                    "impl_output": {str(i): d["obs"] for i, d in o["per"].items()},
+                    "model_view": {str(m["dataset"]): cs.model_view(t) for t, m in zip(cs.terms, cs.metas)}}
         if spec["kind"] == "file":
             cs = core.Cases(ID, "replay_file", HEADER, FILE_CTYPE, FILE_CHECK, show=FILE_SHOW, shard=1)
             try:
